@@ -22,7 +22,7 @@ RULE = ("one case = one generated handler program (2-6 event names, 3-10 handler
         "handler, handlers (depth <= 5) and completion callbacks, several roots at one instant, executed on the "
         "real EventManager under a seeded scheduler (stalls, tie permutations); non-trivial = reached at least "
         "one reach probe; distinct = distinct sequence of observed kinds (handler/callback/context)")
-PROBES = ["root_from_driver", "root_from_at", "root_from_delay", "root_from_switch", "root_from_tswitch",
+PROBES = ["delivery", "callback", "episode_boundary", "root_from_boot", "root_from_driver", "root_from_at", "root_from_delay", "root_from_switch", "root_from_tswitch",
           "root_from_task", "root_from_qevent", "post_in_handler", "post_in_callback", "post_in_nested_switch",
           "depth_3", "depth_5", "roots_waiting_together", "tie_priority", "cond_skip", "cond_pass", "boolean_stop",
           "relay_merge", "kw_override", "bare_post", "callback_after_grandchildren", "callback_no_handlers",
@@ -119,13 +119,13 @@ def _gen_op(g, where, depth=0):
     ch = g.ch
     if where == "h":
         w = [("post", 6), ("add", 1.5), ("rm_key", 1.2), ("rm_event", 0.6), ("rm_method", 0.5), ("replace", 0.4),
-             ("flip", 0.3 if depth == 0 else 0)]
+             ("flip", 0.3), ("defer", 0.4)]
     elif where == "cb":
-        w = [("post", 4), ("add", 1), ("rm_key", 1), ("rm_method", 0.3)]
+        w = [("post", 4), ("add", 1), ("rm_key", 1), ("rm_method", 0.3), ("defer", 0.3)]
     elif where == "setup":
         w = [("add", 7), ("rm_key", 1.5), ("rm_event", 0.5), ("rm_method", 0.5), ("replace", 0.6)]
     else:   # root contexts
-        w = [("post", 8), ("add", 1), ("rm_key", 0.7), ("rm_method", 0.3), ("rm_event", 0.2)]
+        w = [("post", 8), ("add", 1), ("rm_key", 0.7), ("rm_method", 0.3), ("rm_event", 0.2), ("defer", 0.3)]
     kind = ch.weighted("op." + where, w)
     if kind == "post":
         return _gen_post(g, where)
@@ -145,6 +145,9 @@ def _gen_op(g, where, depth=0):
         return {"op": "replace", "event": ch.pick("xevent", g.events), "hid": ch.pick("xhid", g.hids),
                 "prio": _prio(g), "kw": _kw(ch, "xkw", ["a", "b", "h"], 2, 3),
                 "once": True, "oid": g.next_oid()}
+    if kind == "defer":
+        return {"op": "defer", "ms": ch.pick("dms", [0, 0, 125, 250]),
+                "script": [_gen_post(g, "root") for _ in range(1 + ch.choice("ndefer", 2))]}
     if kind == "flip":
         return {"op": "flip", "script": [_gen_post(g, "sw") for _ in range(1 + ch.choice("nflip", 2))]}
     raise AssertionError(kind)
@@ -153,7 +156,7 @@ def _gen_op(g, where, depth=0):
 def plan(ch, tier):
     knobs = draw_knobs(ch)
     g = _Gen(ch)
-    g.events = EVENTS[:2 + ch.choice("nev", 5)]
+    g.events = EVENTS[:ch.weighted("nev", [(3, 3), (2, 2), (4, 2), (5, 1), (6, 1)])]
     g.hids = ["h%d" % i for i in range(3 + ch.choice("nh", 8))]
     g.prio_mode = ch.weighted("prio_mode", [("small", 3), ("distinct", 2), ("flat", 1)])
     g.prio_ctr = ch.choice("prio0", 50)
@@ -167,27 +170,35 @@ def plan(ch, tier):
         n = ch.weighted("hn", [(0, 4), (1, 3), (2, 2), (3, 1)])
         handlers[hid] = {"script": [_gen_op(g, "h") for _ in range(n)], "ret": ch.weighted("ret", RETS)}
     ops = []
-    for _ in range(5 + ch.choice("nsetup", 14)):
-        ops.append({"ctx": "driver", "dt": 0, "script": [_gen_op(g, "setup")], "setup": True})
-    nroots = 3 + ch.choice("nroots", 10)
-    for i in range(nroots):
-        ctxk = ch.weighted("ctx", [("driver", 3), ("at", 3), ("delay", 3), ("switch", 2), ("tswitch", 2),
-                                   ("task", 2), ("qevent", 1)])
-        dt = ch.weighted("dt", [(0, 4), (1, 3), (2, 1), (4, 1)])
-        if i == 0:
-            dt = max(dt, 1)
-        op = {"ctx": ctxk, "dt": dt, "script": [_gen_op(g, "root") for _ in range(1 + ch.choice("nrootops", 3))]}
-        if ctxk == "tswitch":
-            op["sw"] = ch.pick("tsw", ["s_b", "s_c"])
-        if ctxk == "task":
-            op["script2"] = [_gen_op(g, "root") for _ in range(ch.choice("ntask2", 3))]
-            op["await_cb"] = ch.flag("await_cb", 0.4)
-            op["await_event"] = ch.pick("await_ev", g.events)
-        if ctxk == "qevent":
-            op["script2"] = [_gen_op(g, "root") for _ in range(ch.choice("nq2", 3))]
-            op["wait"] = ch.choice("qwait", 4)
-        ops.append(op)
-    return {"knobs": knobs, "prio_mode": g.prio_mode, "events": g.events, "handlers": handlers, "cbs": cbs, "ops": ops}
+    # 1-3 episodes on one booted machine: the registry history carries over, the post/invocation budgets are
+    # reset at the episode boundary (a driver op that first waits for the loop to go idle)
+    for ep in range(1 + ch.choice("nepisodes", 3)):
+        if ep:
+            ops.append({"ctx": "reset", "dt": 3, "script": []})
+        for _ in range((5 if ep == 0 else 0) + ch.choice("nsetup", 14 if ep == 0 else 6)):
+            ops.append({"ctx": "driver", "dt": 0, "script": [_gen_op(g, "setup")], "setup": ep == 0})
+        nroots = 3 + ch.choice("nroots", 10)
+        for i in range(nroots):
+            ctxk = ch.weighted("ctx", [("driver", 3), ("at", 3), ("delay", 3), ("switch", 2), ("tswitch", 2),
+                                       ("task", 2), ("qevent", 1)])
+            dt = ch.weighted("dt", [(0, 4), (1, 3), (2, 1), (4, 1)])
+            if i == 0:
+                dt = max(dt, 1)
+            op = {"ctx": ctxk, "dt": dt, "script": [_gen_op(g, "root") for _ in range(1 + ch.choice("nrootops", 3))]}
+            if ctxk == "tswitch":
+                op["sw"] = ch.pick("tsw", ["s_b", "s_c"])
+            if ctxk == "task":
+                op["script2"] = [_gen_op(g, "root") for _ in range(ch.choice("ntask2", 3))]
+                op["await_cb"] = ch.flag("await_cb", 0.4)
+                op["await_event"] = ch.pick("await_ev", g.events)
+            if ctxk == "qevent":
+                op["script2"] = [_gen_op(g, "root") for _ in range(ch.choice("nq2", 3))]
+                op["wait"] = ch.choice("qwait", 4)
+            ops.append(op)
+    boot = None
+    if ch.flag("boot", 0.25):
+        boot = {"script": [_gen_op(g, "root") for _ in range(1 + ch.choice("nbootops", 3))]}
+    return {"knobs": knobs, "boot": boot, "prio_mode": g.prio_mode, "events": g.events, "handlers": handlers, "cbs": cbs, "ops": ops}
 
 
 def shrink(plan):
@@ -198,6 +209,8 @@ def shrink(plan):
         p = copy.deepcopy(plan)
         fn(p)
         return p
+    if plan.get("boot"):
+        yield variant(lambda p: p.__setitem__("boot", None))
     for hid in sorted(plan["handlers"]):
         if plan["handlers"][hid]["script"]:
             yield variant(lambda p, hid=hid: p["handlers"][hid].__setitem__("script", []))
@@ -208,7 +221,7 @@ def shrink(plan):
         if plan["handlers"][hid]["ret"] is not None:
             yield variant(lambda p, hid=hid: p["handlers"][hid].__setitem__("ret", None))
     for i, op in enumerate(plan["ops"]):
-        if op["ctx"] not in ("driver",) and not op.get("setup"):
+        if op["ctx"] not in ("driver", "reset") and not op.get("setup"):
             yield variant(lambda p, i=i: p["ops"][i].__setitem__("ctx", "driver"))
     for hid in sorted(plan["handlers"]):
         sc = plan["handlers"][hid]["script"]
@@ -241,15 +254,16 @@ def warm():
 def execute(ctx, plan):
     from models.bus import BusModel, cond_to_string
     sim = ctx.new_sim("c01")
-    sim.boot()
     m = sim.machine
+    boot_hooks = []
+    _boot(sim, boot_hooks, until_events=True)        # run the real boot until the EventManager exists
     loop = sim.loop
     events = m.events
     sc = m.switch_controller
     model = BusModel(ctx.violation, ctx.probe)
     handlers = plan["handlers"]
     cbs = plan["cbs"]
-    st = {"posts": 0, "invoc": 0, "where": ("boot",), "once": set(), "iter_posts": None}
+    st = {"posts": 0, "invoc": 0, "where": ("boot",), "once": set(), "defers": 0, "reg_base": 0}
     sw_scripts = {"s_a": [], "s_b": [], "s_c": []}
     tasks = []
 
@@ -307,6 +321,7 @@ def execute(ctx, plan):
                 reg.rid if reg else None, t=now)
         spec = handlers[hid]
         if post is not None and reg is not None:
+            ctx.probe("delivery")
             note_delivery(post, reg, kwargs)
         outer = st["where"]
         st["where"] = ("h", hid)
@@ -350,6 +365,7 @@ def execute(ctx, plan):
             ctx.log("cb", post.pid, post.event, sorted(kwargs.items()), t=now)
             had_grandchildren = any(p.parent is not None and p.parent.parent is post for p in model.posts[post.pid:])
             model.callback_enter(post, kwargs)
+            ctx.probe("callback")
             if had_grandchildren:
                 ctx.probe("callback_after_grandchildren")
             if nohandler.get(post.pid):
@@ -427,7 +443,7 @@ def execute(ctx, plan):
                 if op["oid"] in st["once"]:
                     return
                 st["once"].add(op["oid"])
-            if len(model.regs) >= MAX_REGS:
+            if len(model.regs) - st["reg_base"] >= MAX_REGS:
                 return
             ev = cur_event(op)
             if model.in_handler() and model.cur is not None:
@@ -442,7 +458,7 @@ def execute(ctx, plan):
             evs = ev + ("{%s}" % cond_to_string(op["cond"]) if op["cond"] else "")
             reg.key = events.add_handler(evs, Callable(op["hid"], ev), op["prio"], **kw)
         elif k == "replace":
-            if op["oid"] in st["once"] or len(model.regs) >= MAX_REGS:
+            if op["oid"] in st["once"] or len(model.regs) - st["reg_base"] >= MAX_REGS:
                 return
             st["once"].add(op["oid"])
             ev = op["event"]
@@ -481,12 +497,23 @@ def execute(ctx, plan):
             ctx.log("rm_method", op["hid"], st["where"][0], t=loop.time())
             model.remove_method(op["hid"])
             events.remove_handler(Callable(op["hid"], None))
+        elif k == "defer":
+            if st["defers"] >= 20:
+                return
+            st["defers"] += 1
+            ctx.log("defer", op["ms"], st["where"][0], t=loop.time())
+            m.delay.add(op["ms"], _mk(deferred, op["script"]))
         elif k == "flip":
             sw = m.switches["s_a"]
             sw_scripts["s_a"].append((op["script"], "sw"))
             sc.process_switch("s_a", 1 - sw.state, logical=True)
         else:
             raise AssertionError(k)
+
+    def deferred(script):
+        enter("delay", "deferred")
+        run_script(script, "root")
+        st["where"] = ("loop",)
 
     def run_script(script, where):
         for op in script:
@@ -506,11 +533,6 @@ def execute(ctx, plan):
         for script, where in pend:
             run_script(script, where)
         st["where"] = outer
-
-    sc.add_switch_handler("s_a", lambda: switch_fired("s_a", "switch"), state=1, ms=0)
-    sc.add_switch_handler("s_a", lambda: switch_fired("s_a", "switch"), state=0, ms=0)
-    sc.add_switch_handler("s_b", lambda: switch_fired("s_b", "tswitch"), state=1, ms=125)
-    sc.add_switch_handler("s_c", lambda: switch_fired("s_c", "tswitch"), state=1, ms=125)
 
     qstate = {}
 
@@ -533,13 +555,36 @@ def execute(ctx, plan):
         ctx.log("qdone", kwargs.get("qi"), t=loop.time())
         qstate[kwargs["qi"]]["done"] = qstate[kwargs["qi"]].get("done", 0) + 1
 
+    # -- schedule the roots ------------------------------------------------------------------
+    ops = plan["ops"]
+    boot_op = plan.get("boot")
+    setup_done = [False]
+
+    def boot_handler(queue, **kwargs):
+        """Posting context 'boot': runs inside MPF's init_phase_3 (a queue event of the real boot sequence)."""
+        enter("boot")
+        for op in ops:
+            if op.get("setup"):
+                run_script(op["script"], "root")
+        setup_done[0] = True
+        run_script(boot_op["script"], "root")
+        st["where"] = ("loop",)
+
+    if boot_op:
+        events.add_handler("init_phase_3", boot_handler, 1)
+    _boot(sim, boot_hooks)                           # ... and the rest of it
+    # infrastructure handlers (switch handlers need the booted switch controller)
+    sc.add_switch_handler("s_a", lambda: switch_fired("s_a", "switch"), state=1, ms=0)
+    sc.add_switch_handler("s_a", lambda: switch_fired("s_a", "switch"), state=0, ms=0)
+    sc.add_switch_handler("s_b", lambda: switch_fired("s_b", "tswitch"), state=1, ms=125)
+    sc.add_switch_handler("s_c", lambda: switch_fired("s_c", "tswitch"), state=1, ms=125)
     events.add_handler("c01_queue", qh1, 2)
     events.add_handler("c01_queue", qh2, 1)
-
-    # -- schedule the roots ------------------------------------------------------------------
     run_to(T0, quiet=True)
     assert loop.time() == T0, loop.time()
-    ops = plan["ops"]
+    if boot_op:
+        settle()
+        model.quiesce("loop idle after boot")
     times = []
     k = 2
     for op in ops:
@@ -603,7 +648,7 @@ def execute(ctx, plan):
     for i, op in enumerate(ops):
         t = T0 + times[i] * STEP
         c = op["ctx"]
-        if c == "driver":
+        if c in ("driver", "reset"):
             driver_ops.append((t, i))
         elif c == "at":
             sim.at(t, fire, i)
@@ -630,6 +675,18 @@ def execute(ctx, plan):
         settle()
         st["where"] = ("driver", i)
         model.quiesce("loop idle before driver op %d at %.3f" % (i, loop.time()))
+        if ops[i].get("setup") and setup_done[0]:
+            continue
+        if ops[i]["ctx"] == "reset":
+            ctx.log("episode", i, t=loop.time())
+            ctx.probe("episode_boundary")
+            st.update(posts=0, invoc=0, defers=0, once=set())
+            if len(model.regs) >= MAX_REGS - 10:
+                # make room: drop every registration through the public API (part of the history)
+                for hid in sorted(handlers):
+                    do_op({"op": "rm_method", "hid": hid}, "root")
+                st["reg_base"] = len(model.regs)
+            continue
         ctx.log("ctx", "driver", i, t=loop.time())
         run_script(ops[i]["script"], "root")
         st["where"] = ("loop",)
@@ -647,6 +704,38 @@ def execute(ctx, plan):
             raise AssertionError("queue event %d completed %r times (C02 territory, but unexpected here)" % (i, op.get("done", 0)))
     ctx.info["posts"] = len(model.posts)
     ctx.info["deliveries"] = model.n_deliveries
+
+
+def _boot(sim, state, until_events=False):
+    """Sim.boot() in two halves: stop as soon as machine.events exists (so that a handler for MPF's own
+    init_phase_3 event can be registered = posting context 'boot'), then finish the boot."""
+    import asyncio.events as aev
+    loop = sim.loop
+    if not state:
+        state.append(asyncio.ensure_future(sim.machine.initialize(), loop=loop))
+        state.append(loop.stall_enabled)
+        loop.stall_enabled = False
+    init = state[0]
+    n = 0
+    aev._set_running_loop(loop)
+    try:
+        while not init.done() and sim.crash is None:
+            if until_events and hasattr(sim.machine, "events"):
+                return
+            loop._run_once()
+            n += 1
+            if n > 200000:
+                raise AssertionError("boot did not finish")
+    finally:
+        aev._set_running_loop(None)
+    sim.check_crash()
+    init.result()
+    if until_events:
+        raise AssertionError("boot finished before the hook point")
+    sim.machine.events.process_event_queue()
+    sim.run(0.001)
+    loop.stall_enabled = state[1]
+    sim.booted = True
 
 
 def _mk(fn, *args):
